@@ -148,7 +148,7 @@ def agentRows (cfg : Cfg) (sn : Snap) : List Row := sn.agents.map (mkRow cfg.are
 
 /-- the agents an agent-type reporter keyed by `T` looks at, as a function of the snapshot alone -/
 def classAgents (cfg : Cfg) (sn : Snap) (T : Nat) : Option (List AgentS) :=
-  if sn.agents.any (fun a => a.ty == T) then some (sn.agents.filter fun a => a.ty == T)
+  if sn.agents.any (fun a => a.ty == T) then some (byCreation (sn.agents.filter fun a => a.ty == T))
   else if cfg.isAgentClass T then some (sn.agents.filter fun a => cfg.isSub a.ty T)
   else none
 
@@ -301,6 +301,78 @@ theorem apply_steps_le (cfg : Cfg) (s : State) (op : Op) : s.steps ≤ (apply cf
     · simp
     · split <;> simp
 
+theorem insertBy_perm (le : α → α → Bool) (x : α) (l : List α) : (insertBy le x l).Perm (x :: l) := by
+  induction l with
+  | nil => exact List.Perm.refl _
+  | cons y ys ih =>
+    simp only [insertBy]
+    split
+    · exact List.Perm.refl _
+    · exact (List.Perm.cons y ih).trans (List.Perm.swap x y ys)
+
+theorem sortStable_perm (le : α → α → Bool) (l : List α) : (sortStable le l).Perm l := by
+  induction l with
+  | nil => exact List.Perm.refl _
+  | cons x xs ih => exact (insertBy_perm le x _).trans (List.Perm.cons x ih)
+
+theorem insertBy_pairwise {le : α → α → Bool} (htr : ∀ a b c, le a b = true → le b c = true → le a c = true)
+    (htot : ∀ a b, le a b = true ∨ le b a = true) (x : α) {l : List α} (h : l.Pairwise fun a b => le a b = true) :
+    (insertBy le x l).Pairwise fun a b => le a b = true := by
+  induction l with
+  | nil => simp [insertBy]
+  | cons y ys ih =>
+    simp only [insertBy]
+    have hy := List.pairwise_cons.mp h
+    split
+    · rename_i hxy
+      refine List.pairwise_cons.mpr ⟨?_, h⟩
+      intro b hb
+      rcases List.mem_cons.mp hb with rfl | hb
+      · exact hxy
+      · exact htr _ _ _ hxy (hy.1 b hb)
+    · rename_i hxy
+      refine List.pairwise_cons.mpr ⟨?_, ih hy.2⟩
+      intro b hb
+      rcases List.mem_cons.mp ((insertBy_perm le x ys).mem_iff.mp hb) with rfl | hb
+      · rcases htot b y with h1 | h1
+        · exact absurd h1 hxy
+        · exact h1
+      · exact hy.1 b hb
+
+theorem sortStable_pairwise {le : α → α → Bool} (htr : ∀ a b c, le a b = true → le b c = true → le a c = true)
+    (htot : ∀ a b, le a b = true ∨ le b a = true) (l : List α) :
+    (sortStable le l).Pairwise fun a b => le a b = true := by
+  induction l with
+  | nil => simp [sortStable]
+  | cons x xs ih => exact insertBy_pairwise htr htot x ih
+
+/-- a list that is already in order is left as it is (in particular equal keys keep their order) -/
+theorem sortStable_of_pairwise {le : α → α → Bool} {l : List α} (h : l.Pairwise fun a b => le a b = true) :
+    sortStable le l = l := by
+  induction l with
+  | nil => rfl
+  | cons x xs ih =>
+    have hx := List.pairwise_cons.mp h
+    simp only [sortStable, ih hx.2]
+    cases xs with
+    | nil => rfl
+    | cons y ys => simp [insertBy, hx.1 y (by simp)]
+
+theorem sortBy_perm (key : AgentS → Int) (asc : Bool) (l : List AgentS) : (sortBy key asc l).Perm l := by
+  unfold sortBy; split <;> exact sortStable_perm _ _
+
+/-- an in-place reordering rearranges `model.agents` and does nothing else to it -/
+theorem reorderList_perm (k : ReKind) (l : List AgentS) : (reorderList k l).Perm l := by
+  cases k with
+  | rev => exact List.reverse_perm l
+  | rot =>
+    simp only [reorderList]
+    exact List.perm_append_comm.trans (List.Perm.of_eq (List.take_append_drop 1 l))
+  | byId asc => exact sortBy_perm _ _ _
+  | byAttr a asc => exact sortBy_perm _ _ _
+
+theorem byCreation_perm (l : List AgentS) : (byCreation l).Perm l := sortStable_perm _ _
+
 theorem apply_agents_types (cfg : Cfg) (s : State) (op : Op) (h : TypesInv s) : TypesInv (apply cfg s op).1 := by
   unfold TypesInv at *
   cases op <;> simp only [apply]
@@ -342,6 +414,9 @@ theorem apply_agents_types (cfg : Cfg) (s : State) (op : Op) (h : TypesInv s) : 
     · exact h
     · split <;> exact h
   case stopAt => exact h
+  case reorder k =>
+    intro a ha
+    exact h a ((reorderList_perm k s.agents).mem_iff.mp ha)
 
 theorem collect_fails {cfg : Cfg} {s : State} (hs : stores cfg s = false) :
     ∃ e, collect cfg s = ({ s with validated := true }, some e) := by
@@ -808,15 +883,19 @@ theorem typeLoopS_lookup (cfg : Cfg) (sn : Snap) (l : List (Nat × List ARep)) (
     · simp only [hT, if_false] at h
       exact ih _ (fun y hy => hk y (by simp [hy])) hnd.2 h
 
-/-- for the keys C12 quantifies over, `_record_agenttype` looks at exactly the agents of that class -/
+/-- for the keys C12 quantifies over, `_record_agenttype` looks at exactly the agents of that class: in creation
+    order when the class has direct instances (`agents_by_type[T]`), in the current order of `model.agents` when it
+    has none (a base class: `isinstance` filter over `model.agents`) -/
 theorem classAgents_members (cfg : Cfg) (sn : Snap) (T : Nat) (hA : cfg.isAgentClass T = true)
     (hrefl : ∀ c, cfg.isSub c c = true)
     (hq : (∀ a ∈ sn.agents, cfg.isSub a.ty T = true → a.ty = T) ∨ (∀ a ∈ sn.agents, a.ty ≠ T)) :
-    classAgents cfg sn T = some (sn.agents.filter fun a => cfg.isSub a.ty T) := by
+    classAgents cfg sn T = some (if sn.agents.any (fun a => a.ty == T)
+      then byCreation (sn.agents.filter fun a => cfg.isSub a.ty T) else sn.agents.filter fun a => cfg.isSub a.ty T) := by
   unfold classAgents
   by_cases ha : sn.agents.any (fun a => a.ty == T) = true
   · rcases hq with hq | hq
     · simp only [ha, if_true, Option.some.injEq]
+      congr 1
       apply List.filter_congr
       intro a hm
       by_cases hs : cfg.isSub a.ty T = true
@@ -826,6 +905,153 @@ theorem classAgents_members (cfg : Cfg) (sn : Snap) (T : Nat) (hA : cfg.isAgentC
     · obtain ⟨a, hm, ht⟩ := List.any_eq_true.mp ha
       exact absurd (by simpa using ht) (hq a hm)
   · simp [ha, hA]
+
+/-! ### the order of `model.agents`: creation order until it is reordered in place -/
+
+/-- ids strictly ascending = creation order -/
+def IdSorted (l : List AgentS) : Prop := l.Pairwise fun a b => a.id < b.id
+
+theorem byCreation_of_idSorted {l : List AgentS} (h : IdSorted l) : byCreation l = l := by
+  unfold byCreation
+  apply sortStable_of_pairwise
+  exact h.imp (fun hab => by simp; omega)
+
+theorem byCreation_sorted (l : List AgentS) : (byCreation l).Pairwise fun a b => a.id ≤ b.id := by
+  unfold byCreation
+  have := sortStable_pairwise (le := fun (x y : AgentS) => decide (x.id ≤ y.id))
+    (fun a b c hab hbc => by simp at *; omega) (fun a b => by simp; omega) l
+  exact this.imp (fun h => by simpa using h)
+
+def noReorder : Op → Bool
+  | .reorder _ => false
+  | _ => true
+
+/-- every registered agent has an id below `nextId`, no two share one -/
+def IdsInv (s : State) : Prop := (s.agents.map (·.id)).Nodup ∧ ∀ a ∈ s.agents, a.id < s.nextId
+
+theorem updAgent_ids (id : Nat) (f : AgentS → AgentS) (hf : ∀ a, (f a).id = a.id) (l : List AgentS) :
+    (updAgent id f l).map (·.id) = l.map (·.id) := by
+  induction l with
+  | nil => rfl
+  | cons x xs ih =>
+    simp only [updAgent, List.map_cons] at *
+    rw [ih]
+    split <;> simp [hf]
+
+theorem apply_idsInv (cfg : Cfg) (s : State) (op : Op) (h : IdsInv s) : IdsInv (apply cfg s op).1 := by
+  obtain ⟨hnd, hlt⟩ := h
+  have hlt' : ∀ i ∈ s.agents.map (·.id), i < s.nextId := by
+    intro i hi; obtain ⟨a, ha, rfl⟩ := List.mem_map.mp hi; exact hlt a ha
+  have key : ∀ (l : List AgentS) (n : Nat), (l.map (·.id)).Nodup → (∀ i ∈ l.map (·.id), i < n) →
+      (l.map (·.id)).Nodup ∧ ∀ a ∈ l, a.id < n :=
+    fun l n h1 h2 => ⟨h1, fun a ha => h2 _ (List.mem_map.mpr ⟨a, ha, rfl⟩)⟩
+  unfold IdsInv
+  cases op <;> simp only [apply]
+  case create ty attrs =>
+    refine ⟨?_, ?_⟩
+    · simp only [List.map_append, List.map_cons, List.map_nil]
+      rw [List.nodup_append]
+      refine ⟨hnd, by simp, ?_⟩
+      intro a ha b hb
+      simp only [List.mem_singleton] at hb
+      subst hb
+      have := hlt' a ha
+      omega
+    · intro a ha
+      simp only [List.mem_append, List.mem_singleton] at ha
+      rcases ha with ha | ha
+      · have := hlt a ha; omega
+      · subst ha; simp
+  case remove id =>
+    refine ⟨?_, fun a ha => hlt a (List.mem_filter.mp ha).1⟩
+    exact (List.filter_sublist.map _).nodup hnd
+  case step => exact ⟨hnd, hlt⟩
+  case mset => exact ⟨hnd, hlt⟩
+  case mapp => split <;> exact ⟨hnd, hlt⟩
+  case mdel => split <;> exact ⟨hnd, hlt⟩
+  case aset id a v =>
+    have e := updAgent_ids id (fun ag : AgentS => { ag with attrs := setKey a v ag.attrs }) (fun _ => rfl) s.agents
+    apply key
+    · rw [e]; exact hnd
+    · rw [e]; exact hlt'
+  case adel id a =>
+    have e := updAgent_ids id (fun ag : AgentS => { ag with attrs := delKey a ag.attrs }) (fun _ => rfl) s.agents
+    apply key
+    · rw [e]; exact hnd
+    · rw [e]; exact hlt'
+  case collect =>
+    rw [(collect_frame cfg s).1, (collect_frame cfg s).2.2.2.2.2.2]; exact ⟨hnd, hlt⟩
+  case row =>
+    unfold addTableRow
+    split
+    · exact ⟨hnd, hlt⟩
+    · split <;> exact ⟨hnd, hlt⟩
+  case stopAt => exact ⟨hnd, hlt⟩
+  case reorder k =>
+    have hp := reorderList_perm k s.agents
+    exact ⟨(hp.map _).nodup_iff.mpr hnd, fun a ha => hlt a (hp.mem_iff.mp ha)⟩
+
+theorem run_idsInv (cfg : Cfg) (s : State) (ops : List Op) (h : IdsInv s) : IdsInv (run cfg s ops) := by
+  induction ops generalizing s with
+  | nil => exact h
+  | cons op ops ih => exact ih _ (apply_idsInv cfg s op h)
+
+/-- without an in-place reordering `model.agents` stays in creation order -/
+theorem apply_idSorted (cfg : Cfg) (s : State) (op : Op) (hop : noReorder op = true)
+    (h : IdSorted s.agents ∧ ∀ a ∈ s.agents, a.id < s.nextId) :
+    IdSorted (apply cfg s op).1.agents ∧ ∀ a ∈ (apply cfg s op).1.agents, a.id < (apply cfg s op).1.nextId := by
+  obtain ⟨hs, hlt⟩ := h
+  have upd : ∀ (id : Nat) (f : AgentS → AgentS), (∀ a, (f a).id = a.id) →
+      IdSorted (updAgent id f s.agents) ∧ ∀ a ∈ updAgent id f s.agents, a.id < s.nextId := by
+    intro id f hf
+    have hid : ∀ a : AgentS, (if a.id = id then f a else a).id = a.id := by
+      intro a; split <;> simp [hf]
+    refine ⟨?_, ?_⟩
+    · unfold IdSorted updAgent
+      rw [List.pairwise_map]
+      exact hs.imp (fun hab => by rw [hid, hid]; exact hab)
+    · intro a ha
+      obtain ⟨b, hb, rfl⟩ := List.mem_map.mp ha
+      rw [hid]; exact hlt b hb
+  cases op <;> simp only [apply]
+  case create ty attrs =>
+    refine ⟨?_, ?_⟩
+    · unfold IdSorted
+      rw [List.pairwise_append]
+      refine ⟨hs, by simp, ?_⟩
+      intro a ha b hb
+      simp only [List.mem_singleton] at hb
+      subst hb
+      exact hlt a ha
+    · intro a ha
+      simp only [List.mem_append, List.mem_singleton] at ha
+      rcases ha with ha | ha
+      · have := hlt a ha; omega
+      · subst ha; simp
+  case remove id => exact ⟨hs.filter _, fun a ha => hlt a (List.mem_filter.mp ha).1⟩
+  case step => exact ⟨hs, hlt⟩
+  case mset => exact ⟨hs, hlt⟩
+  case mapp => split <;> exact ⟨hs, hlt⟩
+  case mdel => split <;> exact ⟨hs, hlt⟩
+  case aset id a v => exact upd _ _ (fun _ => rfl)
+  case adel id a => exact upd _ _ (fun _ => rfl)
+  case collect =>
+    rw [(collect_frame cfg s).1, (collect_frame cfg s).2.2.2.2.2.2]; exact ⟨hs, hlt⟩
+  case row =>
+    unfold addTableRow
+    split
+    · exact ⟨hs, hlt⟩
+    · split <;> exact ⟨hs, hlt⟩
+  case stopAt => exact ⟨hs, hlt⟩
+  case reorder k => simp [noReorder] at hop
+
+theorem run_idSorted (cfg : Cfg) (s : State) (ops : List Op) (hops : ∀ op ∈ ops, noReorder op = true)
+    (h : IdSorted s.agents ∧ ∀ a ∈ s.agents, a.id < s.nextId) :
+    IdSorted (run cfg s ops).agents := by
+  induction ops generalizing s with
+  | nil => exact h.1
+  | cons op ops ih =>
+    exact ih _ (fun o ho => hops o (by simp [ho])) (apply_idSorted cfg s op (hops op (by simp)) h)
 
 /-! ### raising reporters: what one collect leaves, and the shapes `model_vars` can take -/
 
